@@ -105,11 +105,23 @@ let cmd_P arg =
   let vd = match dec with Ok None -> "N" | Ok (Some true) -> "T" | Ok (Some false) -> "F" | Err -> "ERR" | Fuel -> "FUEL" in
   let conj = to_conj_form (FNeg f) in
   add ("conj=" ^ show_cf conj);
+  (* proof layer (schema level): conclusions of the proofs returned by to_conj_form / propag_neg *)
+  let pl = (match tcfp (expand (FNeg f)) with
+    | None -> "NONE"
+    | Some ((c, l), r) ->
+       let s1 = show_core l ^ "|" ^ (match r with None -> "-" | Some x -> show_core x) in
+       let s2 = (match c with CBot _ -> "-" | _ ->
+                  (match pnp false c with None -> "NONE" | Some ((_, p1), p2) -> show_core p1 ^ "|" ^ show_core p2)) in
+       Digest.to_hex (Digest.string (s1 ^ "|" ^ s2))) in
+  add ("pl=" ^ pl);
   (match conj with
    | CBot n -> add ("verdict=" ^ (if n then "F" else "T")); if vd <> (if n then "F" else "T") then add ("DECIDE-MISMATCH " ^ vd)
    | _ ->
      let n = geto (propag_neg conj) in add ("neg=" ^ show_cf n);
      let c = get (to_cnf !fuel n) in add ("cnf=" ^ show_cf c);
+     (match to_cnf_p !fuel n with
+      | Ok ((_, q1), q2) -> add ("plc=" ^ Digest.to_hex (Digest.string (show_core q1 ^ "|" ^ show_core q2)))
+      | _ -> add "plc=NONE");
      let cls = geto (to_clauses c) in add ("cls=" ^ show_clauses cls);
      let (v, s) = show_resolution cls in add s;
      let vs = match v with None -> "N" | Some true -> "F" | Some false -> "T" in
